@@ -19,7 +19,21 @@ from .variants import BREAKING, NEUTRAL
 VERIF = os.path.dirname(os.path.dirname(os.path.dirname(os.path.abspath(__file__))))
 
 
+def npz_edit(path, fn):
+    import numpy as np
+    d = dict(np.load(path, allow_pickle=False))
+    d = fn(d, np)
+    np.savez(path, **d)
+
+
 def apply_edits(root, edits):
+    text_edits = []
+    for e in edits:
+        if e[0] == 'npz':
+            npz_edit(os.path.join(root, 'pytorch_wavelets', e[1]), e[2])
+        else:
+            text_edits.append(e)
+    edits = text_edits
     for rel, old, new in edits:
         p = os.path.join(root, 'pytorch_wavelets', rel)
         s = open(p, encoding='utf-8').read()
